@@ -63,7 +63,7 @@ def replay_concrete(contract, name, conc):
             holds = False
             detail = f"clause raised {e!r}; "
     elif "raises" in name:
-        holds = not outcome.startswith("raise") if "must_raise" in name else None
+        holds = outcome.startswith("raise") if "must_raise" in name else None
         if "unexpected" in name:
             holds = not outcome.startswith("raise")
     elif outcome == "return":
